@@ -53,7 +53,7 @@ def register(add):
          'ep_st *a, *b, *c; ep_t *A, *B; const uint8_t **ms; size_t *ls; ep2_st *x, *y; ep2_t *z; size_t l;', 'cp_clb_ver(a, A, b, B, c, ms, ls, x, y, z, l)',
          MEMB + SCAL + PAIR2 + [G('g1_mul'), G('ep_mul_sim_inter'), G('ep_add_projc'), G('ep_norm')],
          True, ['C05X_WITHOUT_SIGVALID', 'C05X_WITHOUT_KEYVALID'], SIGW + '; ' + KEYW,
-         **{'route': 'bounded', 'unwind': 5, 'timeout': 300, 'unwindset': ['__CPROVER_contracts_write_set_check_assigns_clause_inclusion.0:90'], 'flags': ['--object-bits', '11'], 'bound_note': 'number of message blocks 1 <= l <= 2 (loops over i < l unwound completely; l = 3 exceeds 2^10 addressed objects and did not finish with more); messages <= 40 bytes'})
+         **{'route': 'bounded', 'unwind': 5, 'timeout': 240, 'unwindset': ['__CPROVER_contracts_write_set_check_assigns_clause_inclusion.0:90'], 'flags': ['--object-bits', '11'], 'bound_note': 'number of message blocks 1 <= l <= 2 (loops over i < l unwound completely; l = 3 exceeds 2^10 addressed objects and did not finish with more); messages <= 40 bytes'})
     both('cp_pss_ver', 'cp_pss_ver', 'src/cp/relic_cp_pss.c',
          'ep_st *a, *b; bn_st *m; ep2_st *g, *x, *y;', 'cp_pss_ver(a, b, m, g, x, y)',
          MEMB + SCAL + PAIR2 + [G('g2_mul'), G('ep2_mul_sim_lot'), G('ep2_add_projc'), G('ep2_norm')],
@@ -66,10 +66,5 @@ def register(add):
          True, ['C05X_WITHOUT_SIGVALID', 'C05X_WITHOUT_KEYVALID'],
          'well-formedness of a and b beyond "a is not the identity": on-curve test of a and b, b not the identity; ' + KEYW,
          **{'route': 'bounded', 'bound_note': 'the verifier is loop-free after callee replacement; 1 <= l <= 2 bounds the key array only (the demanded validity of every y[i] is stated for i < 2)'})
-    both('cp_vbnn_ver', 'cp_vbnn_ver', 'src/cp/relic_cp_vbnn.c',
-         'ep_st *r; bn_st *z, *h; const uint8_t *id; size_t id_len; const uint8_t *msg; int msg_len; ep_st *mpk;', 'cp_vbnn_ver(r, z, h, id, id_len, msg, msg_len, mpk)',
-         MEMB + SCAL + [G('bn_sign'), G('bn_is_zero'), G('bn_cmp'), G('ep_size_bin'), G('ep_write_bin'), G('ep_mul_gen'), G('ep_mul_lwnaf'), G('ep_add_projc'), G('ep_sub'), G('ep_norm')],
-         True, ['C05X_WITHOUT_SIGVALID', 'C05X_WITHOUT_ZRANGE', 'C05X_WITHOUT_KEYVALID'],
-         'ep_on_curve(R) and R not the identity; the range 0 <= z < n of the scalar z (bn_sign, bn_cmp with the order): (R, z + n, h) verifies as well; validity of the master public key. '
-         'Additionally abstract here: ep_size_bin (arbitrary size 1..33, one value for R and one for other points), ep_write_bin, bn_sign/bn_is_zero/bn_cmp; memcpy and alloca are the CBMC models',
-         **{'route': 'bounded', 'bound_note': 'identity <= 8 bytes, message <= 8 bytes (memcpy unwound); otherwise loop-free after callee replacement'})
+    # cp_vbnn_ver: contract written (contracts/c05x_pair_vbnn.h) but NOT registered: the unit was vacuous (no path returns from the second
+    # replaced ep_mul_lwnaf call, cause not found in the time available); see the builder report.
